@@ -138,3 +138,20 @@ package resources
 //@     invariant -1 <= rangeindex && rangeindex < len(podResourceClaims)
 //@   ensures result != nil
 //@ end
+
+// ===== section owned by helper bplug (C11: DRA claim reservations written by the binder's DRA plugin) =====
+// "claim reservations in place": the claim's status lists the pod (by name and UID) as a consumer.
+//@ define claimReservedFor(c *resourceapi.ResourceClaim, pod *v1.Pod) bool = exists i int :: 0 <= i && i < len(c.Status.ReservedFor) && c.Status.ReservedFor[i].Name == pod.Name && c.Status.ReservedFor[i].UID == pod.UID && c.Status.ReservedFor[i].Resource == "pods" && c.Status.ReservedFor[i].APIGroup == ""
+//@ define isPodRef(c *resourceapi.ResourceClaim, i int, pod *v1.Pod) bool = c.Status.ReservedFor[i].Name == pod.Name && c.Status.ReservedFor[i].UID == pod.UID && c.Status.ReservedFor[i].Resource == "pods" && c.Status.ReservedFor[i].APIGroup == ""
+//@ func UpsertReservedFor
+//@   props C11
+//@   requires claim != nil && pod != nil
+//@   modifies claim.Status.ReservedFor
+//@   loop 1
+//@     invariant -1 <= rangeindex && rangeindex < len(claim.Status.ReservedFor)
+//@     invariant claim.Status.ReservedFor == old(claim.Status.ReservedFor)
+//@     decreases len(claim.Status.ReservedFor) - rangeindex
+//@   hint [witness] (len(claim.Status.ReservedFor) == old(len(claim.Status.ReservedFor)) + 1 && isPodRef(claim, len(claim.Status.ReservedFor) - 1, pod)) || (rangeindex + 1 < len(claim.Status.ReservedFor) && isPodRef(claim, rangeindex + 1, pod))
+//@   ensures [pod-listed-as-consumer] claimReservedFor(claim, pod)
+//@   ensures [at-most-one-entry-added] len(claim.Status.ReservedFor) == old(len(claim.Status.ReservedFor)) || len(claim.Status.ReservedFor) == old(len(claim.Status.ReservedFor)) + 1
+//@ end
